@@ -151,12 +151,16 @@ class NumpyShim(types.ModuleType):
 
     absolute = abs
 
-    def isclose(self, a, b, *args, **kw):
+    def isclose(self, a, b, rtol=1e-05, atol=1e-08, equal_nan=False):
         if isinstance(a, R) or isinstance(b, R):
-            # code under analysis uses isclose only as an equality-with-slack guard;
-            # the real reading is exact equality (A-real)
-            return a == b
-        return _np.isclose(a, b, *args, **kw)
+            # numpy's definition, symbolically: |a - b| <= atol + rtol * |b|  (a tolerance is part of
+            # the behaviour: reading it as exact equality hid seeded changes that widen a boundary)
+            from .sym import And, compare
+
+            a, b = R.lift(a), R.lift(b)
+            slack = R.lift(atol) + R.lift(rtol) * abs(b)
+            return And(compare("<=", a - b, slack), compare("<=", b - a, slack))
+        return _np.isclose(a, b, rtol=rtol, atol=atol, equal_nan=equal_nan)
 
 
 def np_shim_for(*modules, symbolic_zeros=True):
